@@ -6,6 +6,7 @@ import (
 	"hash/fnv"
 	"reflect"
 	"sort"
+	"strconv"
 	"strings"
 	"time"
 )
@@ -1098,7 +1099,7 @@ func (hash *SexpHash) SexpString(ps *PrintState) string {
 			onKey++
 			switch s := key.(type) {
 			case *SexpStr:
-				str += indInner + `"` + s.S + `":`
+				str += indInner + strconv.Quote(s.S) + ":"
 			case *SexpSymbol:
 				if asJSON {
 					str += indInner + `"` + s.name + `":`
